@@ -372,6 +372,12 @@ def run(c, chk):
         sub = report.SubCheck(chk, 'R12.9', 'C15', only=('R15.1',))
         c15.run(c, sub)
         sub.done('comments inside a skipped item')
+        # R12.10: what counts as "undeclared" is decided by the name lookup: a name is declared only if it equals a declared name
+        from . import c11
+        chk.rule('R12.10', 'a name is declared only if it equals a declared name as a whole (one leaf comparison; a length-limited comparison tests the end of the name: rule R11.1 of C11)')
+        sub = report.SubCheck(chk, 'R12.10', 'C11', only=('R11.1',))
+        c11.run(c, sub)
+        sub.done('name lookup')
 
 
 def why_class(why):
